@@ -232,6 +232,87 @@ def work_boundaries(shard):
 
 
 # ---------------------------------------------------------------------------------------
+# suspension while a statement waits for keyboard input (beyond the statement's "statement boundary":
+# the session then resumes by re-executing the waiting statement)
+
+BLOCKED_PROGRAMS = {
+    'input-first': [b'10 INPUT A', b'20 B=A*2:OPEN "O.TXT" FOR OUTPUT AS 1:PRINT#1,A;B:CLOSE', b'30 SYSTEM'],
+    'input-after-colon': [b'10 C=3:INPUT A', b'20 B=A*2+C:OPEN "O.TXT" FOR OUTPUT AS 1:PRINT#1,A;B:CLOSE', b'30 SYSTEM'],
+    'lineinput-first': [b'10 LINE INPUT L$', b'20 T$=L$+"!":OPEN "O.TXT" FOR OUTPUT AS 1:PRINT#1,T$:CLOSE', b'30 SYSTEM'],
+    'lineinput-later': [b'10 C=4', b'20 LINE INPUT L$', b'30 T$=L$+"!":OPEN "O.TXT" FOR OUTPUT AS 1:PRINT#1,T$;C:CLOSE',
+                        b'40 SYSTEM'],
+}
+KEYS = [H.key_event(c) for c in u'57\r']
+
+
+def _blocked_run(lines, base, tag, suspend):
+    mount = os.path.join(base, tag)
+    os.makedirs(mount)
+    try:
+        s = _mk(mount, lines)
+        inp = s.verif_inputs
+        if not suspend:
+            inp.schedule = {12: list(KEYS)}
+            r = H.run(s, b'RUN')
+            if not r.exit:
+                raise CheckError('blocked-input reference did not reach SYSTEM: %r' % (r,))
+            return _final_state(s, mount)
+        # the input stream closes while the statement waits: the session exits and is suspended
+        inp.horizon, inp.at_horizon = 12, 'close'
+        r = H.run(s, b'RUN', reset_polls=True)
+        if r.exc is not None or not r.exit:
+            raise CheckError('closing the input did not stop the waiting session: %r' % (r,))
+        statefile = os.path.join(base, 'state_' + tag)
+        s.suspend(statefile)
+        s.close()
+        s2 = H.Session.resume(statefile)
+        os.unlink(statefile)
+        s2.start()
+        s2._impl.queues.inputs = H.ScriptedInputs({3: list(KEYS)}, 3000, 'raise')
+        try:
+            s2.interact()
+        except H.Horizon:
+            st = _final_state(s2, mount)
+            st['ended'] = 'horizon'
+            return st
+        except BaseException as e:
+            from pcbasic.basic.base import error
+            if not isinstance(e, error.Exit):
+                if isinstance(e, Exception) and from_pcbasic(e):
+                    return {'host-exception': repr(e)}
+                raise
+        return _final_state(s2, mount)
+    finally:
+        shutil.rmtree(mount, ignore_errors=True)
+
+
+def work_blocked(shard):
+    part = Partial()
+    for name in shard:
+        lines = BLOCKED_PROGRAMS[name]
+        with H.Scratch() as base:
+            ref = _blocked_run(lines, base, 'ref', False)
+            got = _blocked_run(lines, base, 'sus', True)
+            part.n += 1
+            part.traces += 2
+            case = {'blocked': name}
+            part.classes.add('blocked/' + name)
+            if 'host-exception' in got:
+                part.violation('resume-blocked/host-exception/%s' % name, got['host-exception'], case)
+                continue
+            diffs = [f for f in ('vars', 'files') if got[f] != ref[f]]
+            if got.get('ended') == 'horizon':
+                diffs.append('did-not-end')
+            if diffs:
+                part.violation(
+                    'resume-blocked/diverges/%s' % name,
+                    'program %r suspended while waiting for input, resumed and given the keys: differs in %s; '
+                    'files %r expected %r' % (lines, diffs, got['files'], ref['files']), case)
+    part.sample({'blocked_program': [l.decode() for l in BLOCKED_PROGRAMS[shard[0]]]})
+    return part
+
+
+# ---------------------------------------------------------------------------------------
 # byte alteration
 
 def _make_state_files(base):
@@ -312,6 +393,9 @@ def legs(ctx):
         progs = singles + pairs + [('gosub', 'error', 'files'), ('on', 'strings', 'data'), ('for', 'while', 'goto')]
         bound = 'programs: %d (%d singles + all %d ordered pairs + 3 triples); every statement boundary' % (len(progs), len(singles), len(pairs))
     out = [Leg('boundaries', list(chunked(progs, 1)), work_boundaries, exhaustive=True, bound=bound)]
+    out.append(Leg('blocked-input', [[n] for n in sorted(BLOCKED_PROGRAMS)], work_blocked, exhaustive=True,
+                   bound='%d programs suspended while INPUT / LINE INPUT waits (first statement of the '
+                         'program, after a colon, on a later line); keys supplied after the resume' % len(BLOCKED_PROGRAMS)))
     shards = []
     for which in range(3):
         n = _state_len(which) + 64
@@ -328,6 +412,8 @@ def legs(ctx):
 
 
 def replay(ctx, leg, case):
+    if leg == 'blocked-input':
+        return work_blocked([case['blocked']])
     if leg == 'boundaries':
         part = Partial()
         frags = tuple(case['fragments'])
